@@ -922,6 +922,7 @@ func vfxDrawCase(d *vfDraws, only string) *vfxCase {
 		binary.BigEndian.PutUint32(out[off:], uint32(nv))
 		c.Input, c.Orig, c.Clause, c.Mut = out, vfxClone(v.R), "size", "size-lie:"+site
 		c.Before = u.Before
+		c.Reframe = site == "records-size"
 		if site == "unit-size" {
 			// what the decoder sees behind the size field: the rest of the records area
 			seen := len(v.R) - off - 4
